@@ -33,13 +33,22 @@ class TrioRunner(BaseRunner):
             trio.from_thread.run(
                 self._submit_tasks.send, payload, trio_token=self._trio_token
             )
-        except (trio.RunFinishedError, trio.Cancelled):
+        except (
+            trio.RunFinishedError,
+            trio.Cancelled,
+            trio.ClosedResourceError,
+            trio.BrokenResourceError,
+        ):
+            # the channel is closed while the payloads are still cleaning up
             self._logger.warning(f"discarding payload {payload} during shutdown")
             return
         except RuntimeError:
             # trio raises a bare RuntimeError when we are already in the trio thread
             # just submit the task directly
-            self._submit_tasks.send_nowait(payload)
+            try:
+                self._submit_tasks.send_nowait(payload)
+            except (trio.ClosedResourceError, trio.BrokenResourceError):
+                self._logger.warning(f"discarding payload {payload} during shutdown")
 
     def run_payload(self, payload: Callable[[], Coroutine]):
         assert self._trio_token is not None and self._submit_tasks is not None
